@@ -404,6 +404,22 @@ func runC15(c *Ctx) {
 	c.Min("C15.G1", 10)
 
 	c.strictHeaderDecoderRule()
+	// the signing input is the JSON of the header map as encoding/json writes a map: the header type has no encoder or
+	// decoder of its own (one that leaves out empty or null members makes different headers sign the same bytes)
+	{
+		var own []string
+		for _, rel := range []string{"jws", "api/jws"} {
+			if nt := c.NamedType(rel, "Headers"); nt != nil {
+				for _, m := range c.methodsOf(nt) {
+					switch m.Name() {
+					case "MarshalJSON", "UnmarshalJSON", "MarshalText", "UnmarshalText":
+						own = append(own, short(m.String()))
+					}
+				}
+			}
+		}
+		c.Check("C15.X2", "header-map:no-encoder-of-its-own", len(own) == 0, 0, fmt.Sprintf("jws.Headers is written and read as a plain JSON object (own encoders/decoders: %v)", own))
+	}
 
 	// "verifies under the matching public JWK": the JWK the library produces for a key (fixed-width coordinates, curve
 	// marking, strict reading) is the subject of C16; those rules are part of this check as well
@@ -625,7 +641,35 @@ func runC16(c *Ctx) {
 	} else {
 		c.Unresolved("C16.G1", "(*jws.JWK).Validate")
 	}
-	c.Min("C16.G1", 8)
+	// the first pass of the strict reader (kty / crv dispatch, secp256k1 coordinates, the labels) is made with go-jose's
+	// JSON decoder — member names matched exactly, duplicates refused — like go-jose's own second pass: encoding/json
+	// would let "Crv" stand in for "crv" and the last of two "x" win
+	{
+		uj := c.Method("jwsutil", "JWK", "UnmarshalJSON")
+		n, bad := 0, 0
+		var where []string
+		if uj != nil {
+			for _, g := range append([]*ssa.Function{uj}, c.helpersOf(uj, 1)...) {
+				forEachInstr(g, func(in ssa.Instruction) {
+					cl, ok := in.(*ssa.Call)
+					if !ok || cl.Call.StaticCallee() == nil || len(cl.Call.Args) != 2 {
+						return
+					}
+					h := cl.Call.StaticCallee()
+					if h.Name() != "Unmarshal" {
+						return
+					}
+					n++
+					if h.Pkg == nil || h.Pkg.Pkg.Path() != joseJSONPkg {
+						bad++
+						where = append(where, c.pos(cl.Pos())+": "+h.String())
+					}
+				})
+			}
+		}
+		c.Check("C16.G1", "strict-reader:decodes-with-the-strict-json-decoder", uj != nil && n > 0 && bad == 0, 0, fmt.Sprintf("%d JSON decode(s) in (*JWK).UnmarshalJSON, all with %s", n, joseJSONPkg), where...)
+	}
+	c.Min("C16.G1", 9)
 
 	// ---- G2 closed set of rejections: a valid key must read back, so unmarshalSecp256k1 may say no only for a missing
 	// coordinate, a coordinate (or private value) of the wrong width, or a point off the curve
